@@ -58,6 +58,8 @@ type chainValRecv struct{ n int }
 
 func (v chainValRecv) String() string { return fmt.Sprint(v.n) }
 
+var chainStringers = map[string]fmt.Stringer{"nil0": (*chainValRecv)(nil), "seven": chainValRecv{7}}
+
 type chainBadStringer struct{}
 
 func (chainBadStringer) String() string { panic("String() of the panic value panics") }
@@ -217,9 +219,8 @@ func (h *chainHandler) interpret(i int, cur **chainRun, c flamego.Context) {
 				case 1:
 					// a runtime error raised inside a compiler-generated method wrapper (a value-receiver method called
 					// through an interface holding a nil pointer): its stack frame's file is "<autogenerated>", no slash
-					var p *chainValRecv
-					var s fmt.Stringer = p
-					_ = s.String()
+					// (looked up at run time, so that the compiler cannot devirtualise the call)
+					_ = chainStringers[fmt.Sprint("nil", i%1)].String()
 				case 2:
 					var xs []int
 					_ = xs[len(os.Args)+3] // index out of range
